@@ -12,6 +12,7 @@ CONSTANTS
 INVARIANT PgrSumOne
 INVARIANT PgrBounds
 INVARIANT PgrRatios
+INVARIANT PgrScaleFree
 INVARIANT TexRotations
 INVARIANT TexPermutation
 INVARIANT TexDiagonal
